@@ -184,17 +184,6 @@ Definition prec (e : expr) : nat :=
   | _ => 6
   end.
 
-Definition is_plain_lit (e : expr) : bool :=
-  match e with Terminal _ None _ _ => true | _ => false end.
-
-(** does the printed form end in a literal that a following description would attach to? *)
-Definition open_end (e : expr) : bool :=
-  match e with
-  | Terminal _ None _ _ => true
-  | Subword (Sequence fs _) _ _ => is_plain_lit (last fs (Sequence [] (mkspan 0 0 0)))
-  | _ => false
-  end.
-
 Definition ends_in_rbrace (s : string) : bool :=
   match srev s with String c _ => Ascii.eqb c (ascii_of_N 125) | EmptyString => false end.
 
@@ -243,6 +232,59 @@ Section Lists.
     end.
 End Lists.
 
+(** Factors of a word.  A factor that starts with a literal must be parenthesised when the factor
+    before it was printed as a bare literal without description (the two would lex as one): it is
+    printed in context 8 (> every precedence).  [prev] = the previous factor was such a literal. *)
+Definition starts_lit (e : expr) : bool :=
+  match e with
+  | Terminal _ _ _ _ => true
+  | Many1 (Terminal _ _ _ _) _ => true
+  | _ => false
+  end.
+
+Definition is_plain_lit (e : expr) : bool :=
+  match e with Terminal _ None _ _ => true | _ => false end.
+
+Definition factor_ctx (prev : bool) (x : expr) : nat := if prev && starts_lit x then 8%nat else 5%nat.
+Definition factor_open (cx : nat) (x : expr) : bool := is_plain_lit x && Nat.eqb cx 5.
+
+Section SubLists.
+  Variable f : nat -> nat -> expr -> string.
+  Fixpoint txt_sub (k : nat) (prev : bool) (l : list expr) : string :=
+    match l with
+    | [] => EmptyString
+    | x :: r =>
+        let cx := factor_ctx prev x in
+        append (f k cx x) (txt_sub (S k) (factor_open cx x) r)
+    end.
+
+  Variable g : nat -> nat -> expr -> pos -> expr * pos.
+  Fixpoint loc_sub (k : nat) (prev : bool) (l : list expr) (q : pos) : list expr * pos :=
+    match l with
+    | [] => ([], q)
+    | x :: r =>
+        let cx := factor_ctx prev x in
+        let '(x', q1) := g k cx x q in
+        let '(rs, q2) := loc_sub (S k) (factor_open cx x) r q1 in
+        (x' :: rs, q2)
+    end.
+End SubLists.
+
+(** was the last factor printed as a bare literal without description? *)
+Fixpoint sub_last_open (prev : bool) (l : list expr) : bool :=
+  match l with
+  | [] => prev
+  | x :: r => sub_last_open (factor_open (factor_ctx prev x) x) r
+  end.
+
+(** does the printed form end in a literal that a following description would attach to? *)
+Definition open_end (e : expr) : bool :=
+  match e with
+  | Terminal _ None _ _ => true
+  | Subword (Sequence fs _) _ _ => sub_last_open false fs
+  | _ => false
+  end.
+
 Definition no_sep (k : nat) : string := EmptyString.
 Definition seq_sep (L : nodelay) (k : nat) : string := gap_text (gap1 (fst (nl_sep L k))).
 Definition alt_sep (L : nodelay) (k : nat) : string :=
@@ -274,7 +316,7 @@ Fixpoint txt (lay : layout) (ctx : nat) (e : expr) {struct e} : string :=
                (append (gap_text (post_gap (nl_gap L 0))) (descr_text d))
     | Subword r _ _ =>
         match r with
-        | Sequence fs _ => txt_list (fun k f => txt (sub (sub lay 0) k) 5 f) no_sep 0 fs
+        | Sequence fs _ => txt_sub (fun k cx f => txt (sub (sub lay 0) k) cx f) 0 false fs
         | _ => txt (sub lay 0) 5 r
         end
     | Sequence cs _ => txt_list (fun k x => txt (sub lay k) 3 x) (seq_sep L) 0 cs
@@ -346,7 +388,7 @@ Fixpoint loc (c : cfg) (lay : layout) (ctx : nat) (e : expr) (p : pos) {struct e
         match r with
         | Sequence fs _ =>
             let '(fs', p1) :=
-              loc_list (fun k f q => loc c (sub (sub lay 0) k) 5 f q) (fun _ q => q) 0 fs pb in
+              loc_sub (fun k cx f q => loc c (sub (sub lay 0) k) cx f q) 0 false fs pb in
             (Subword (Sequence fs' (pspan pb p1)) l (pspan pb p1), p1)
         | _ =>
             let '(r', p1) := loc c (sub lay 0) 5 r pb in
@@ -503,20 +545,6 @@ Fixpoint has_sub (t s : string) : bool :=
 Definition wf_cmd (c : string) : bool :=
   negb (has_sub RBRACE3 c) && String.eqb (trim_start c) c && String.eqb (trim_end c) c.
 
-Definition starts_lit (e : expr) : bool :=
-  match e with
-  | Terminal _ _ _ _ => true
-  | Many1 (Terminal _ _ _ _) _ => true
-  | _ => false
-  end.
-
-(** inside a word, a literal without description cannot be followed by a literal *)
-Fixpoint adjacent_ok (fs : list expr) : bool :=
-  match fs with
-  | f :: ((g :: _) as r) => negb (is_plain_lit f && starts_lit g) && adjacent_ok r
-  | _ => true
-  end.
-
 (** [w] = inside a word (where the parser flattens every [Subword] away) *)
 Fixpoint wfb (w : bool) (e : expr) {struct e} : bool :=
   match e with
@@ -532,7 +560,7 @@ Fixpoint wfb (w : bool) (e : expr) {struct e} : bool :=
   | Subword r l _ =>
       negb w && N.eqb l 0 &&
       match r with
-      | Sequence fs _ => Nat.leb 2 (List.length fs) && forallb (wfb true) fs && adjacent_ok fs
+      | Sequence fs _ => Nat.leb 2 (List.length fs) && forallb (wfb true) fs
       | _ => false
       end
   end.
